@@ -776,7 +776,7 @@ func c05BlobPathFns(p *Prog) map[*ssa.Function]bool {
 
 func c05R2OCI(c *Ctx) {
 	const R = "C05.R2.publish-after-verify"
-	c.Expect(R, 17)
+	c.Expect(R, 16) // 17 on the pinned tree; 16 when the ingest helper is inlined
 	fn := c.P.Fn("content/oci", "Storage.Push")
 	if fn == nil || len(fn.Blocks) == 0 || len(fn.Params) != 4 {
 		c.LostAnchor(R, "(*~/content/oci.Storage).Push")
@@ -944,42 +944,8 @@ func c05IngestRole(c *Ctx, R string, g *ssa.Function, desc, rd *ssa.Parameter, p
 		if !isC || CalleeName(ct) != "os.CreateTemp" {
 			continue
 		}
-		fld := fieldOfFuncValue(ct.Call.Args[0])
-		if fld == "" {
-			why = "os.CreateTemp directory is not a field of the storage"
-			continue
-		}
-		parts := strings.SplitN(fld, ".", 2)
-		tname, fname := parts[0], parts[1]
-		if i := strings.LastIndex(fld, "."); i >= 0 {
-			tname, fname = fld[:i], fld[i+1:]
-		}
-		okTmp = true
-		stores := 0
-		for _, u := range c05FieldUses(c05ModuleFuncs(c.P), tname, fname) {
-			st, isStore := u.Use.(*ssa.Store)
-			if !isStore {
-				continue
-			}
-			stores++
-			jc, isJoin := strip(st.Val).(*ssa.Call)
-			if !isJoin || (CalleeName(jc) != "path/filepath.Join" && CalleeName(jc) != "path.Join") {
-				okTmp, why = false, "Storage."+fname+" is assigned something other than filepath.Join(root, <const>)"
-				continue
-			}
-			el := c05VariadicElems(variadicArg(jc))
-			if len(el) < 2 {
-				okTmp, why = false, "Storage."+fname+" join has no constant segment"
-				continue
-			}
-			seg, isK := constString(el[1])
-			if !isK || seg == "" || seg == "blobs" || strings.HasPrefix(seg, "blobs/") || strings.HasPrefix(seg, ".") {
-				okTmp, why = false, fmt.Sprintf("Storage.%s is %q under the root: ingest files would be created inside blobs/", fname, seg)
-			}
-		}
-		if stores == 0 {
-			okTmp, why = false, "Storage."+fname+" is never assigned"
-		}
+		why = c05IngestDirOK(c05ModuleFuncs(c.P), ct.Call.Args[0])
+		okTmp = why == ""
 	}
 	c.Check(R, gn+"|temp-file-outside-blobs", g.Pos(), okTmp,
 		ifelse(okTmp, "the ingest file is created by os.CreateTemp in the storage's ingest directory, a constant sibling of blobs/", why))
@@ -1254,7 +1220,7 @@ func c05DescSource(v ssa.Value) *ssa.Parameter {
 
 func c05R3(c *Ctx) {
 	const R = "C05.R3.who-may-publish"
-	c.Expect(R, 18)
+	c.Expect(R, 12) // 19 on the pinned tree; the 6 reader lines are optional
 	all := c05ModuleFuncs(c.P)
 	// (a) cas.Memory.content
 	c05MapInventory(c, R, all, "~/internal/cas.Memory", "content", map[string]string{
@@ -1412,97 +1378,208 @@ var c05Creators = map[string]bool{
 
 func c05BlobsInventory(c *Ctx, R string) {
 	fns := c.P.FuncsOfPkg("content/oci")
-	sites := Inventory(fns, func(n string) bool { return c05Creators[n] })
-	CheckInventory(c, R, sites, []InvLine{
-		{Fn: "(*~/content/oci.Storage).Push", Callee: "os.Rename", Role: "the only creator of names under blobs/<alg>/ (verified ingest file moved in)", Required: true},
-		{Fn: "(*~/content/oci.Storage).ingest", Callee: "os.CreateTemp", Role: "ingest file, created in ingestRoot (R2 checks the directory)", Required: true},
-		{Fn: "~/content/oci.ensureDir", Callee: "os.MkdirAll", Role: "directories only"},
-		{Fn: "(*~/content/oci.Store).ensureOCILayoutFile", Callee: "os.WriteFile", Role: "oci-layout file at the root"},
-		{Fn: "(*~/content/oci.Store).writeIndexFile", Callee: "os.WriteFile", Role: "index.json at the root"},
-	})
-	// provenance: a file-creating effect whose path is derived from the blob-path
-	// constructor or from the literal "blobs" must be the Rename in Storage.Push.
 	bp := c05BlobPathFns(c.P)
+	all := c05ModuleFuncs(c.P)
+	publications := 0
 	for _, f := range fns {
+		// values of f that denote a path under blobs/
 		blobVals := map[ssa.Value]bool{}
 		AllInstrs(f, func(in ssa.Instruction) {
-			if call, ok := in.(*ssa.Call); ok {
-				if g := StaticCallee(call); g != nil && bp[g] {
-					if r0 := ResultOf(call, 0); r0 != nil {
-						blobVals[r0] = true
-					}
-					blobVals[call] = true
+			call, ok := in.(*ssa.Call)
+			if !ok {
+				return
+			}
+			if g := StaticCallee(call); g != nil && bp[g] {
+				if r0 := ResultOf(call, 0); r0 != nil {
+					blobVals[r0] = true
 				}
-				for _, a := range call.Call.Args {
-					if s, ok := constString(a); ok && (s == "blobs" || strings.HasPrefix(s, "blobs/")) {
-						blobVals[a] = true
-					}
+				blobVals[call] = true
+			}
+			for _, a := range call.Call.Args {
+				if s, ok := constString(a); ok && (s == "blobs" || strings.HasPrefix(s, "blobs/")) {
+					blobVals[a] = true
 				}
-				if nm := CalleeName(call); nm == "path.Join" || nm == "path/filepath.Join" {
-					for _, e := range c05VariadicElems(variadicArg(call)) {
-						if s, ok := constString(e); ok && (s == "blobs" || strings.HasPrefix(s, "blobs/")) {
-							blobVals[e] = true
-							blobVals[call] = true
-						}
+			}
+			if nm := CalleeName(call); nm == "path.Join" || nm == "path/filepath.Join" {
+				for _, e := range c05VariadicElems(variadicArg(call)) {
+					if s, ok := constString(e); ok && (s == "blobs" || strings.HasPrefix(s, "blobs/")) {
+						blobVals[e] = true
+						blobVals[call] = true
 					}
 				}
 			}
 		})
-		if len(blobVals) == 0 {
-			continue
-		}
+		underBlobs := func(v ssa.Value) bool { return len(blobVals) > 0 && derivesFromAny(v, blobVals, 0) }
+		seen := map[string]int{}
 		for _, call := range Calls(f, func(n string) bool { return c05Creators[n] }) {
 			n := CalleeName(call)
-			if n == "os.MkdirAll" || n == "os.Mkdir" {
-				continue
-			}
-			for i, a := range call.Common().Args {
-				if _, isStr := a.Type().Underlying().(*types.Basic); !isStr {
-					continue
+			seen[n]++
+			key := fmt.Sprintf("%s|%s#%d", FnName(f), n, seen[n])
+			args := call.Common().Args
+			switch n {
+			case "os.MkdirAll", "os.Mkdir":
+				c.Exists(R, key, call.Pos(), true, "creates directories only")
+			case "os.Rename":
+				if underBlobs(args[1]) {
+					publications++
+					ok := FnName(f) == "(*~/content/oci.Storage).Push" && !underBlobs(args[0])
+					c.Check(R, key+"|publication", call.Pos(), ok,
+						ifelse(ok, "the only creator of names under blobs/: Storage.Push moves the verified ingest file to its blob path (R2 checks dominance)", "a rename into blobs/ outside Storage.Push (or from within blobs/): content becomes visible without passing ingest+verify"))
+				} else {
+					c.Violation(R, key, call.Pos(), "unclassified rename in the OCI layout package: review against C05 (is the target visible as content?) and extend the classification")
 				}
-				if !derivesFromAny(a, blobVals, 0) {
-					continue
+			case "os.CreateTemp":
+				why := c05IngestDirOK(all, args[0])
+				c.Check(R, key+"|ingest-file", call.Pos(), why == "" && !underBlobs(args[0]),
+					ifelse(why == "", "temporary file in the storage's ingest directory, a constant sibling of blobs/", why))
+			case "os.WriteFile":
+				ok, role := false, "file written in place by the OCI layout package at an unreviewed path"
+				if underBlobs(args[0]) {
+					role = "a file is written directly under blobs/: content becomes visible without passing ingest+verify"
+				} else if fld := fieldOfFuncValue(args[0]); strings.HasSuffix(fld, ".indexPath") {
+					ok, role = true, "index.json (path held in Store.indexPath)"
+				} else if jc, isJoin := strip(args[0]).(*ssa.Call); isJoin && (CalleeName(jc) == "path/filepath.Join" || CalleeName(jc) == "path.Join") {
+					el := c05VariadicElems(variadicArg(jc))
+					if len(el) == 2 {
+						if seg, isK := constString(el[1]); isK && (seg == "oci-layout" || seg == "index.json") {
+							ok, role = true, "metadata file "+seg+" at the layout root"
+						}
+					}
 				}
-				ok := FnName(f) == "(*~/content/oci.Storage).Push" && n == "os.Rename" && i == 1
-				c.Check(R, FnName(f)+"|"+n+"|path-under-blobs", call.Pos(), ok,
-					ifelse(ok, "the verified ingest file is renamed to its blob path", "a file is created directly under blobs/ by "+n+": content becomes visible without passing ingest+verify"))
+				c.Check(R, key+"|metadata-file", call.Pos(), ok, role)
+			default:
+				c.Violation(R, key, call.Pos(), "unclassified file-creating effect in the OCI layout package ("+n+"): only the rename of a verified ingest file may create names under blobs/; review and extend the classification")
 			}
 		}
 	}
+	c.Exists(R, "~/content/oci|publication-by-rename-exists", token.NoPos, publications > 0,
+		ifelse(publications > 0, "blobs are published by renaming", "no rename into blobs/ found: the publication step changed shape, the inventory must be re-confirmed"))
+}
+
+// c05IngestDirOK: dir is a load of a Storage field that is only ever assigned
+// filepath.Join(root, <constant segment that is not blobs>).  "" when fine.
+func c05IngestDirOK(all []*ssa.Function, dir ssa.Value) string {
+	fld := fieldOfFuncValue(dir)
+	if fld == "" {
+		return "os.CreateTemp directory is not a field of the storage: cannot show the temp file is outside blobs/"
+	}
+	i := strings.LastIndex(fld, ".")
+	tname, fname := fld[:i], fld[i+1:]
+	stores := 0
+	for _, u := range c05FieldUses(all, tname, fname) {
+		st, isStore := u.Use.(*ssa.Store)
+		if !isStore {
+			continue
+		}
+		stores++
+		jc, isJoin := strip(st.Val).(*ssa.Call)
+		if !isJoin || (CalleeName(jc) != "path/filepath.Join" && CalleeName(jc) != "path.Join") {
+			return fld + " is assigned something other than filepath.Join(root, <const>)"
+		}
+		el := c05VariadicElems(variadicArg(jc))
+		if len(el) < 2 {
+			return fld + " join has no constant segment"
+		}
+		seg, isK := constString(el[1])
+		if !isK || seg == "" || seg == "blobs" || strings.HasPrefix(seg, "blobs/") || strings.HasPrefix(seg, ".") {
+			return fmt.Sprintf("%s is %q under the root: ingest files would be created inside blobs/ (partial, unverified content visible under blobs/)", fld, seg)
+		}
+	}
+	if stores == 0 {
+		return fld + " is never assigned"
+	}
+	return ""
 }
 
 // ---------------------------------------------------------------- R4
 
-func c05R4(c *Ctx) {
-	const R = "C05.R4.error-flow"
-	c.Expect(R, 21)
-	monitored := map[string]bool{
-		c05CopyBuf: true, c05Verify: true, c05ReadAll: true, "os.Chmod": true, "os.Rename": true, "os.CreateTemp": true, "os.Create": true,
-		"io.ReadFull": true, "io.CopyBuffer": true, "~/content/oci.ensureDir": true, "~/content/file.ensureDir": true,
-		"(*~/content/oci.Storage).ingest": true, "(*~/content/file.Store).saveFile": true, "(*~/content/file.Store).pushFile": true, "(*~/content/file.Store).pushDir": true,
-	}
+// c05PushReach: the exported verifying/publishing entry points and the
+// same-package helpers they reach statically (depth 3, closures included).
+func c05PushReach(c *Ctx, R string) []*ssa.Function {
 	type target struct{ pkg, name string }
-	var fns []*ssa.Function
+	seen := map[*ssa.Function]bool{}
+	var out []*ssa.Function
+	var add func(f *ssa.Function, d int)
+	add = func(f *ssa.Function, d int) {
+		if f == nil || seen[f] || len(f.Blocks) == 0 {
+			return
+		}
+		seen[f] = true
+		out = append(out, f)
+		if d == 0 {
+			return
+		}
+		AllInstrs(f, func(in ssa.Instruction) {
+			switch x := in.(type) {
+			case ssa.CallInstruction:
+				if g := StaticCallee(x); g != nil && fnPkgPath(g) == fnPkgPath(f) {
+					add(g, d-1)
+				}
+			case *ssa.MakeClosure:
+				add(x.Fn.(*ssa.Function), d)
+			}
+		})
+	}
 	for _, t := range []target{{"content", "ReadAll"}, {"internal/ioutil", "CopyBuffer"}, {"internal/cas", "Memory.Push"},
-		{"content/oci", "Storage.Push"}, {"content/oci", "Storage.ingest"}, {"content/file", "Store.saveFile"}, {"content/file", "Store.pushFile"},
-		{"content/file", "Store.pushDir"}, {"content/file", "Store.push"}} {
+		{"content/oci", "Storage.Push"}, {"content/file", "Store.Push"}} {
 		f := c.P.Fn(t.pkg, t.name)
 		if f == nil || len(f.Blocks) == 0 {
 			c.LostAnchor(R, t.pkg+"."+t.name)
 			continue
 		}
-		fns = append(fns, f)
+		d := 3
+		if t.pkg == "content" || t.pkg == "internal/ioutil" {
+			d = 0 // the verifier's own internals are decided path-sensitively by R1
+		}
+		add(f, d)
+	}
+	return out
+}
+
+func c05R4(c *Ctx) {
+	const R = "C05.R4.error-flow"
+	c.Expect(R, 16) // 23 on the pinned tree; helper calls disappear when helpers are inlined
+	std := map[string]bool{
+		c05CopyBuf: true, c05Verify: true, c05ReadAll: true, "os.Chmod": true, "os.Rename": true, "os.CreateTemp": true, "os.Create": true,
+		"io.ReadFull": true, "io.CopyBuffer": true, "os.MkdirAll": true,
+	}
+	relevant := func(n string, _ ssa.CallInstruction) bool { return std[n] }
+	fns := c05PushReach(c, R)
+	inSet := map[*ssa.Function]bool{}
+	for _, f := range fns {
+		inSet[f] = true
 	}
 	for _, f := range fns {
+		if ErrResultIndex(f.Signature) < 0 {
+			continue // closures without an error result are handled below
+		}
+		var cbNil []Edge
+		for _, cb := range CallsTo(f, c05CopyBuf) {
+			cbNil = append(cbNil, c05NilEdgesOf(cb)...)
+		}
 		seen := map[string]int{}
-		for _, call := range Calls(f, func(n string) bool { return monitored[n] }) {
+		for _, call := range Calls(f, func(string) bool { return true }) {
 			if _, isDefer := call.(*ssa.Defer); isDefer {
 				continue
 			}
 			n := CalleeName(call)
+			mon := std[n]
+			if g := StaticCallee(call); !mon && g != nil && inSet[g] && ErrResultIndex(g.Signature) >= 0 && reachesCall(g, 3, relevant) {
+				mon = true // in-package helper on the verifying/publishing path (role, not name)
+			}
+			if n == "(*os.File).Close" && len(cbNil) > 0 && ReachableFromEntry(call.(ssa.Instruction)) && MustPass(call.(ssa.Instruction), newCut().Edges(cbNil...)) {
+				mon = true // closing the freshly written file on the success path
+			}
+			if !mon || ErrOf(call) == nil {
+				continue
+			}
 			seen[n]++
 			key := fmt.Sprintf("%s|%s#%d", FnName(f), n, seen[n])
 			var tol []string
+			if fnPkgPath(f) == pkgPath("content/file") {
+				// by design: unnamed content is discarded on request; restoring duplicates skips absent blobs and names pushed concurrently
+				tol = []string{"~/content/file.errSkipUnnamed", "~/errdef.ErrNotFound", "~/content/file.ErrDuplicateName"}
+			}
 			r := ErrFlow(call, ErrFlowOpts{Tolerated: tol})
 			pos := call.Pos()
 			if !r.OK && r.At.IsValid() {
@@ -1510,20 +1587,25 @@ func c05R4(c *Ctx) {
 			}
 			c.Check(R, key, pos, r.OK, r.How+r.Detail)
 		}
-	}
-	// the ingest file's Close error (deferred closure) must reach the named result
-	if g := c.P.Fn("content/oci", "Storage.ingest"); g != nil {
-		for _, cl := range Anons(g) {
+		// a deferred closure that closes the file written by CopyBuffer must record the Close error
+		if len(cbNil) == 0 {
+			continue
+		}
+		for _, cl := range Anons(f) {
+			if cl.Parent() != f {
+				continue
+			}
 			for _, call := range CallsTo(cl, "(*os.File).Close") {
-				ok, why := c05ClosureErrRecorded(g, cl, call)
-				c.Check(R, FnName(g)+"|deferred-close-error-recorded", call.Pos(), ok, why)
+				ok, why := c05ClosureErrRecorded(f, cl, call)
+				c.Check(R, FnName(f)+"|deferred-close-error-recorded", call.Pos(), ok, why)
 			}
 		}
 	}
 }
 
-// c05ClosureErrRecorded: inside deferred closure cl of fn, a non-nil error of
-// call is stored into fn's named error result unless that result is already non-nil.
+// c05ClosureErrRecorded: inside deferred closure cl of fn, the error of call
+// reaches fn's named error result: every path from the call to the closure's
+// end stores it there, or finds it nil, or finds the result already non-nil.
 func c05ClosureErrRecorded(fn, cl *ssa.Function, call ssa.CallInstruction) (bool, string) {
 	idx := ErrResultIndex(fn.Signature)
 	e := ErrOf(call)
@@ -1545,7 +1627,7 @@ func c05ClosureErrRecorded(fn, cl *ssa.Function, call ssa.CallInstruction) (bool
 		}
 	}
 	if fv == nil {
-		return false, "the closure does not capture the enclosing function's error result"
+		return false, "the closure that closes the written file does not capture the enclosing function's error result: a failed Close goes unreported"
 	}
 	al := Aliases(e)
 	cutC := newCut()
@@ -1562,15 +1644,11 @@ func c05ClosureErrRecorded(fn, cl *ssa.Function, call ssa.CallInstruction) (bool
 	}
 	_, nonNilRes, _ := NilTests(cl, loads)
 	cutC.Edges(nonNilRes...)
-	_, nonNil, ifs := NilTests(cl, al)
-	if len(ifs) == 0 {
-		return false, "the Close error is not tested"
-	}
-	for _, ne := range nonNil {
-		for _, r := range Returns(cl) {
-			if reach(ne.To, 0, r, cutC) {
-				return false, "a failed Close of the ingest file can go unreported (the blob may be incomplete on disk yet renamed into blobs/)"
-			}
+	nilE, _, _ := NilTests(cl, al)
+	cutC.Edges(nilE...)
+	for _, r := range Returns(cl) {
+		if reach(call.Block(), instrIndex(call.(ssa.Instruction))+1, r, cutC) {
+			return false, "a failed Close of the freshly written file can go unreported (the content may be incomplete on disk yet published)"
 		}
 	}
 	return true, "a failed Close is stored into the error result unless an earlier error is already being returned"
@@ -1607,7 +1685,7 @@ var c05Mutants = []Mutant{
 	{Name: "oci-store-tags-before-push", File: "content/oci/oci.go", Old: "\tif err := s.storage.Push(ctx, expected, reader); err != nil {\n\t\treturn err\n\t}\n\tif err := s.graph.Index(ctx, s.storage, expected); err != nil {\n\t\treturn err\n\t}\n\tif descriptor.IsManifest(expected) {\n\t\t// tag by digest\n\t\treturn s.tag(ctx, expected, expected.Digest.String())\n\t}\n\treturn nil", New: "\tif descriptor.IsManifest(expected) {\n\t\t// tag by digest\n\t\tif err := s.tag(ctx, expected, expected.Digest.String()); err != nil {\n\t\t\treturn err\n\t\t}\n\t}\n\tif err := s.storage.Push(ctx, expected, reader); err != nil {\n\t\treturn err\n\t}\n\treturn s.graph.Index(ctx, s.storage, expected)", Expect: "C05.R2.wrapper-forwards-descriptor|(*~/content/oci.Store).Push|bookkeeping-only-after-successful-inner-push"},
 	// R3
 	{Name: "memory-second-writer", File: "internal/cas/memory.go", Old: "// Map dumps the memory into a built-in map structure.", New: "// Preload stores bytes under key.\nfunc (m *Memory) Preload(key descriptor.Descriptor, b []byte) { m.content.Store(key, b) }\n\n// Map dumps the memory into a built-in map structure.", Expect: "C05.R3.who-may-publish|~/internal/cas.Memory.content|"},
-	{Name: "oci-direct-blob-write", File: "content/oci/storage.go", Old: "// ensureDir ensures the directories of the path exists.", New: "// putRaw writes a small blob in place.\nfunc (s *Storage) putRaw(expected ocispec.Descriptor, b []byte) error {\n\tp, err := blobPath(expected.Digest)\n\tif err != nil {\n\t\treturn err\n\t}\n\treturn os.WriteFile(filepath.Join(s.root, p), b, 0444)\n}\n\n// ensureDir ensures the directories of the path exists.", Expect: "C05.R3.who-may-publish|(*~/content/oci.Storage).putRaw|os.WriteFile"},
+	{Name: "oci-direct-blob-write", File: "content/oci/storage.go", Old: "// ensureDir ensures the directories of the path exists.", New: "// putRaw writes a small blob in place.\nfunc (s *Storage) putRaw(expected ocispec.Descriptor, b []byte) error {\n\tp, err := blobPath(expected.Digest)\n\tif err != nil {\n\t\treturn err\n\t}\n\treturn os.WriteFile(filepath.Join(s.root, p), b, 0444)\n}\n\n// ensureDir ensures the directories of the path exists.", Expect: "C05.R3.who-may-publish|(*~/content/oci.Storage).putRaw|os.WriteFile#1"},
 	{Name: "file-add-records-digest-before-error-check", File: "content/file/file.go", Old: "\tdgst, err := digest.FromReader(fp)\n\tif err != nil {\n\t\treturn ocispec.Descriptor{}, err\n\t}\n\t// map digest to file path\n\ts.digestToPath.Store(dgst, path)\n", New: "\tdgst, err := digest.FromReader(fp)\n\t// map digest to file path\n\ts.digestToPath.Store(dgst, path)\n\tif err != nil {\n\t\treturn ocispec.Descriptor{}, err\n\t}\n", Expect: "C05.R3.who-may-publish|(*~/content/file.Store).descriptorFromFile|recorded-digest-is-computed-over-recorded-file"},
 	{Name: "file-adddir-no-explicit-flush", File: "content/file/file.go", Old: "\t// flush all\n\tif err := gzw.Close(); err != nil {\n\t\treturn ocispec.Descriptor{}, err\n\t}\n", New: "\t// flush all\n", Expect: "C05.R3.who-may-publish|(*~/content/file.Store).descriptorFromDir|recorded-digest-is-computed-over-recorded-file"},
 	// R4
